@@ -154,8 +154,12 @@ def run_case(ctx, case, rec, d):
                 prob = 'names %r' % bn
             elif bn[-1] != 'p_dead' or not (bch[-1] >= 1e30 or bch[-1] != bch[-1]):
                 prob = 'the model with zero flux in a fitted band is at rank %d with chi2 %r (expected last, with chi2 >= 1e30 or undefined)' % (bn.index('p_dead') + 1, bch[bn.index('p_dead')])
-            elif bn[:-1] != an or not (np.allclose(bch[:-1], fc._asf(a.chi2), rtol=1e-12) and np.allclose(fc._asf(b.av)[:-1], fc._asf(a.av), rtol=1e-12, atol=1e-12)):
-                prob = 'live rows differ from the package without the dead model'
+            else:
+                # compared by model name: rows with exactly tied chi^2 may come in either order
+                da = {nm_: (c_, v_) for nm_, c_, v_ in zip(an, fc._asf(a.chi2), fc._asf(a.av))}
+                db = {nm_: (c_, v_) for nm_, c_, v_ in zip(bn[:-1], bch[:-1], fc._asf(b.av)[:-1])}
+                if set(da) != set(db) or any(not np.allclose(da[k_], db[k_], rtol=1e-12, atol=1e-12) for k_ in da) or np.any(np.diff(bch[:-1]) < 0):
+                    prob = 'live rows differ from the package without the dead model'
             if prob:
                 rec.violation('rank|2d|dead-model', {'source': si}, {'problem': prob, 'flags': list(fv), 'ranking': bn, 'chi2': bch})
     for fitter, rr in fitters:
